@@ -74,10 +74,26 @@ let show_tok = function
   | TStr s -> "\"" ^ of_coq s ^ "\"" | TChr c -> Printf.sprintf "'%c'" (char_of_ascii c)
   | TSym y -> of_coq (sym_name y) | TBad c -> Printf.sprintf "<BAD %d>" (Char.code (char_of_ascii c))
 
+(* compile order: the files listed in the generated project script (project.txt, section before
+   "# testbench files:") first, in that order; files the script does not mention follow alphabetically *)
 let vhd_files dir =
   let fs = Array.to_list (Sys.readdir dir) in
-  let fs = List.filter (fun f -> Filename.check_suffix f ".vhd") fs in
-  List.map (fun f -> Filename.concat dir f) (List.sort compare fs)
+  let fs = List.sort compare (List.filter (fun f -> Filename.check_suffix f ".vhd") fs) in
+  let script = Filename.concat dir "project.txt" in
+  let listed =
+    if Sys.file_exists script then begin
+      let rec take acc = function
+        | [] -> List.rev acc
+        | l :: r ->
+            let l = Stdlib.String.trim l in
+            if l = "# testbench files:" then List.rev acc
+            else if l = "" || l.[0] = '#' then take acc r
+            else take (l :: acc) r in
+      List.filter (fun f -> List.mem f fs) (take [] (read_lines script))
+    end else [] in
+  let listed = List.fold_left (fun acc f -> if List.mem f acc then acc else acc @ [f]) [] listed in
+  let rest = List.filter (fun f -> not (List.mem f listed)) fs in
+  List.map (fun f -> Filename.concat dir f) (listed @ rest)
 
 let cases listfile =
   List.filter_map (fun l -> match words l with [id; dir] -> Some (id, dir) | _ -> None) (read_lines listfile)
